@@ -268,6 +268,8 @@ type scratch struct {
 	br    bytes.Reader
 	buf   [512]byte
 	out   []byte
+	out0  []byte
+	err   error // the first error of the last decode
 	txt   []byte
 	after [nAfter]afterRead // the Reads made after the first error
 }
@@ -298,6 +300,11 @@ func (s *scratch) decode(text []byte, mode int) ([]byte, error) {
 	case dSeven:
 		src, step = &pieces{data: text, k: 7}, 5
 	}
+	return s.decodeFrom(src, step)
+}
+
+// decodeFrom is decode over any reader the caller holds the text in.
+func (s *scratch) decodeFrom(src io.Reader, step int) ([]byte, error) {
 	rd := armor.NewReader(src)
 	s.out = s.out[:0]
 	idle := 0
@@ -309,11 +316,13 @@ func (s *scratch) decode(text []byte, mode int) ([]byte, error) {
 				an, aerr := rd.Read(s.buf[:step])
 				s.after[i] = afterRead{an, aerr}
 			}
+			s.err = err
 			return s.out, err
 		}
 		if n == 0 {
 			if idle++; idle > 1000 {
 				s.after = [nAfter]afterRead{}
+				s.err = nil
 				return s.out, nil
 			}
 		} else {
